@@ -317,6 +317,12 @@ func resultParkedInClosedField(call ssa.CallInstruction, closed map[*types.Var]b
 
 // checkRollback evaluates rule R2 for one entry function.
 func checkRollback(c *engine.Ctx, tab *resTable, name string, f *ssa.Function, own map[*types.Func]*ssa.Function, closeObj *types.Func) {
+	checkRollbackDepth(c, tab, name, f, own, closeObj, 0, false)
+}
+
+// checkRollbackDepth: quiet=true evaluates without recording obligations and returns whether every site is fine (used to
+// decide whether an own method that acquires also undoes its own acquisitions when it fails — a step split out of Run).
+func checkRollbackDepth(c *engine.Ctx, tab *resTable, name string, f *ssa.Function, own map[*types.Func]*ssa.Function, closeObj *types.Func, depth int, quiet bool) bool {
 	p := c.P
 	// own methods that (transitively) acquire
 	acquiring := map[*ssa.Function]bool{}
@@ -389,9 +395,12 @@ func checkRollback(c *engine.Ctx, tab *resTable, name string, f *ssa.Function, o
 	})
 	if len(sites) == 0 {
 		// acquisitions happen only inside closures or nowhere: nothing to pair at this level
-		c.Hold(name, f.Pos(), 1, nil, "no acquisition followed by an error exit at this level")
-		return
+		if !quiet {
+			c.Hold(name, f.Pos(), 1, nil, "no acquisition followed by an error exit at this level")
+		}
+		return true
 	}
+	allOK := true
 	for i, s := range sites {
 		s := s
 		kname := "own-method"
@@ -421,7 +430,14 @@ func checkRollback(c *engine.Ctx, tab *resTable, name string, f *ssa.Function, o
 				errIdx = -2 // the value itself
 			}
 		}
-		c.AllPaths(key, engine.PathCheck{Fn: f, From: s.call, Sink: engine.IsReturn, EventsBeforeFrom: true,
+		// an own method that fails has acquired nothing that outlives it when it rolls back its own acquisitions
+		selfContained := false
+		if s.own && depth < 2 {
+			if cf := engine.CalleeFn(s.call); cf != nil {
+				selfContained = checkRollbackDepth(c, tab, name+">"+cf.Name(), cf, own, closeObj, depth+1, true)
+			}
+		}
+		pc := engine.PathCheck{Fn: f, From: s.call, Sink: engine.IsReturn, EventsBeforeFrom: true,
 			Event: func(in ssa.Instruction) string {
 				if d, ok := in.(*ssa.Defer); ok {
 					if cf := engine.CalleeFn(d); cf != nil {
@@ -450,7 +466,7 @@ func checkRollback(c *engine.Ctx, tab *resTable, name string, f *ssa.Function, o
 			Pred: func(st *engine.PathState) string {
 				r := st.Sink.(*ssa.Return)
 				// did the acquisition succeed on this path?
-				if !s.own && errIdx != -1 && cv != nil {
+				if (!s.own || selfContained) && errIdx != -1 && cv != nil {
 					isNil, known := st.IsNil(func(v ssa.Value) bool {
 						if errIdx == -2 {
 							return v == cv
@@ -479,10 +495,20 @@ func checkRollback(c *engine.Ctx, tab *resTable, name string, f *ssa.Function, o
 					return ""
 				}
 				return fmt.Sprintf("after %s succeeded this exit may return an error (%s) without releasing what was acquired", engine.Describe(cv), engine.Describe(errRes))
-			}}, "every error exit after this acquisition releases it or runs a registered rollback")
+			}}
+		if quiet {
+			if engine.QuietPaths(pc) != "" {
+				allOK = false
+			}
+			continue
+		}
+		if !c.AllPaths(key, pc, "every error exit after this acquisition releases it or runs a registered rollback") {
+			allOK = false
+		}
 	}
 	// rollback defers registered before the acquisition (HTTP/HTTPS: defer { if err != nil { pxy.Close() } } at the top)
 	// are events on the path from the function entry; re-evaluate failing sites from entry.
+	return allOK
 }
 
 // isReleaseOfCaptured: x is a Close call on a captured variable holding the acquire result.
